@@ -617,6 +617,100 @@ theorem arith_total_wrapping (k : DKind) (hk : k ≠ .int) :
     ∀ scalar, I32 scalar → (∀ a b, I32 a → I32 b → (Checked.fxMul a b).isSome) → ArithTotal k scalar :=
   ⟨arithTotal_one k hk, fun scalar hs hm => arithTotal_scaled k hk scalar hs hm⟩
 
+/-! ## `find_glyph_and_point_count`, `Gvar::phantom_point_deltas` -/
+
+/-- **`find_glyph_and_point_count` terminates within the nesting limit and never panics**: for every
+glyph table (whatever `loca.get_glyf` answers, including cycles of `USE_MY_METRICS` components) the
+recursion makes at most 66 nested calls (the model's fuel suffices: `recurse_depth` grows by one per
+call and `> 64` is an error), `count += 1` cannot overflow, the error is `MalformedData` (nesting) or one
+of `get_glyf`'s own, and the point count returned is a simple glyph's `num_points()` or at most the
+component count. -/
+theorem find_glyph_bounded (glyph : Nat → GR) (B : Nat) (hB : CompsBounded glyph B) (hBm : B ≤ 4294967296)
+    (gid : Nat) :
+    findGlyph glyph 66 gid 0 ≠ .trap ∧
+    (∀ e, findGlyph glyph 66 gid 0 = .err e → e = .malformed ∨ ∃ g, glyph g = .err e) ∧
+    ∀ g n, findGlyph glyph 66 gid 0 = .ok (g, n) → n ≤ B ∨ ∃ k, glyph g = .simple k ∧ n = k :=
+  findGlyph_facts glyph B hB hBm 66 gid 0 (by omega)
+
+/-- **`phantom_point_deltas` never indexes outside its four phantom points and panics only if a C20
+kernel traps** (`…_partial`: `hk` / `hks` are C20's `tupleScalar_no_trap` and the `i32` range of its
+results, `hm` is `fxMul_no_trap`): `phantom_range = point_count..point_count + 4` cannot overflow,
+`phantom_deltas[ix - phantom_range.start]` is guarded by `contains`, the tuples and their deltas are
+bounded (`gvar_walk_safe`). -/
+theorem phantom_point_deltas_no_panic_partial (d : List Nat) (g : Gv) (hb : Bytes d) (hr : gvarRead d = some g)
+    (glyph : Nat → GR) (B : Nat) (hB : CompsBounded glyph B) (hBm : B ≤ 4294967296)
+    (hS : ∀ gid k, glyph gid = .simple k → k ≤ 4294967296) (coords : List Int) (gid : Nat)
+    (hk : ∀ (pk : List Int) (inter : Option (List Int × List Int)), (∀ c ∈ pk, I16 c) →
+      (∀ q, inter = some q → (∀ c ∈ q.1, I16 c) ∧ (∀ c ∈ q.2, I16 c)) →
+      (Checked.tupleScalar pk inter coords).isSome)
+    (hks : ∀ (pk : List Int) (inter : Option (List Int × List Int)) (v : Int),
+      Checked.tupleScalar pk inter coords = some (some v) → I32 v)
+    (hm : ∀ a b, I32 a → I32 b → (Checked.fxMul a b).isSome) :
+    g.phantomPointDeltas glyph coords gid ≠ .trap ∧
+    ∀ ph, g.phantomPointDeltas glyph coords gid = .ok (some ph) → ph.length = 4 := by
+  obtain ⟨f1, _, f3⟩ := find_glyph_bounded glyph B hB hBm gid
+  unfold Gv.phantomPointDeltas
+  cases hf : findGlyph glyph 66 gid 0 with
+  | trap => exact absurd hf f1
+  | err e => exact ⟨by simp, by simp⟩
+  | ok r =>
+    obtain ⟨gid', pc⟩ := r
+    simp only []
+    have hpc : pc ≤ 4294967296 := by
+      rcases f3 gid' pc hf with h | ⟨k, hk', hpk⟩
+      · omega
+      · rw [hpk]; exact hS gid' k hk'
+    rw [uadd_some _ _ (by unfold MAXU; omega)]
+    simp only []
+    obtain ⟨v1, _, v3⟩ := glyphVariationData_facts hb hr gid'
+    cases hv : g.glyphVariationData gid' with
+    | trap => exact absurd hv v1
+    | err e => exact ⟨by simp, by simp⟩
+    | ok op =>
+      cases op with
+      | none => exact ⟨by simp, by simp⟩
+      | some p =>
+        simp only []
+        obtain ⟨hac, _, bytes, shared, hnew, _, hbb, hbs⟩ := v3 p hv
+        obtain ⟨_, _, hok⟩ := gvdNew_facts bytes p.ac shared
+        obtain ⟨_, hsh, hhd, _, _, _, _⟩ := hok p hnew
+        have hbh : Bytes p.headerData := by rw [hhd]; exact bytes_drop hbb _
+        obtain ⟨evs, l, he, hl, _, hmem⟩ := active_tuples_bounded_partial p hac coords hbh
+          (by intro sd hsd; rw [hsh] at hsd; injection hsd with hsd; rw [← hsd]; exact hbs) hk
+        rw [hl]
+        simp only []
+        obtain ⟨evs', he', _, _, _, _, _, hall⟩ := tuples_iter_bounded p hac
+        rw [he] at he'
+        injection he' with he'
+        subst he'
+        have hsc : ∀ x ∈ l, I32 x.2 := by
+          intro x hx
+          obtain ⟨pk, inter, hts⟩ := computeScalar_some_src p x.1 coords x.2 (hmem x hx).2
+          exact hks pk inter x.2 hts
+        obtain ⟨ph', hp1, hp2⟩ := phantomLoop_facts p pc l
+          (by
+            intro x hx
+            obtain ⟨d', hrd, _⟩ := hall x.1 (hmem x hx).1
+            obtain ⟨dv, k1, _, k3⟩ := tuple_deltas_bounded p x.1 d' hac hrd true
+            exact ⟨dv, k1, k3⟩)
+          (by
+            intro x hx a b
+            unfold applyScalarFixed
+            obtain ⟨fa, hfa, hfai⟩ := fxFromI32_some a
+            obtain ⟨fb, hfb, hfbi⟩ := fxFromI32_some b
+            rw [hfa, hfb]
+            simp only []
+            obtain ⟨pa, hpa⟩ := Option.isSome_iff_exists.mp (hm fa x.2 hfai (hsc x hx))
+            obtain ⟨pb, hpb⟩ := Option.isSome_iff_exists.mp (hm fb x.2 hfbi (hsc x hx))
+            rw [hpa, hpb]
+            rfl)
+          [(0, 0), (0, 0), (0, 0), (0, 0)] rfl
+        rw [hp1]
+        refine ⟨by simp, ?_⟩
+        intro ph hph
+        simp only [R.ok.injEq, Option.some.injEq] at hph
+        rw [← hph]; exact hp2
+
 /-! ## non-vacuity -/
 
 /-- an embedded peak + intermediate header for one axis: 4 + 2 + 4 bytes -/
@@ -688,6 +782,20 @@ example : (match accumulateSparse .fixed 65536 [2, 1, 1, 0] [0xC1, 0x7F, 0xFF, 0
 /-- a dense tuple: two `i8` x deltas, two zero y deltas -/
 example : (match accumulateDense .f26dot6 65536 [0x01, 5, 0xFB, 0x81] [7, 7] [7, 7] with
     | .ok r => some r | _ => none) = some ([7 + 5 * 64, 7 - 5 * 64], [7, 7]) := by decide +kernel
+
+/-- a cycle of `USE_MY_METRICS` composites hits the nesting limit; a chain ends at the simple glyph -/
+example : findGlyph (fun g => if g = 0 then .composite [(false, 7), (true, 1)] else if g = 1 then .composite [(true, 0)]
+    else .none) 66 0 0 = .err .malformed := by rfl
+
+example : findGlyph (fun g => if g = 0 then .composite [(false, 7), (true, 1)] else if g = 1 then .simple 9
+    else .none) 66 0 0 = .ok (1, 9) := by rfl
+
+example : CompsBounded (fun g => if g = 0 then GR.composite [(false, 7), (true, 1)] else .none) 2 := by
+  intro gid comps h
+  simp only [] at h
+  split at h
+  · injection h with h; rw [← h]; simp
+  · cases h
 
 /-- the byte hypothesis is satisfiable -/
 example : Bytes exGvar := by unfold Bytes; decide
